@@ -12,6 +12,30 @@ pub type StepHook = fn(u32, usize);
 
 static HOOK: OnceLock<StepHook> = OnceLock::new();
 
+std::thread_local! {
+    static NO_PREFILTER: core::cell::Cell<bool> = const { core::cell::Cell::new(false) };
+}
+
+/// Simulation knob ("skip the fast path"): while set on the calling thread, the scan loop
+/// of the backtracking executor does not consult the start-position prefilter and
+/// attempts a match at every offset. Returns the previous value.
+pub fn set_no_prefilter(on: bool) -> bool {
+    NO_PREFILTER.with(|c| c.replace(on))
+}
+
+/// Site id reported for every offset attempted with the prefilter switched off.
+pub const PRED_KNOB_OFF: u32 = 28;
+
+#[inline(always)]
+pub(crate) fn no_prefilter() -> bool {
+    if NO_PREFILTER.with(|c| c.get()) {
+        step(PRED_KNOB_OFF, 0);
+        true
+    } else {
+        false
+    }
+}
+
 /// Register the process-wide step hook. Returns false if one was already set.
 pub fn set_step_hook(f: StepHook) -> bool {
     HOOK.set(f).is_ok()
